@@ -77,7 +77,7 @@ def run_optcodec(ctx, ch: Channel, only: set | None = None):
         if only is not None and row["cgi"] not in only:
             continue
         kspec, kbase = row["kspec"], row["kbase"]
-        texts = L.texts_for(kbase, rng, n_from)
+        texts = L.texts_for(kbase, rng, 10 ** 6)      # the whole pool, every run
         # the text of canonical values as well (valid inputs)
         for _ in range(max(4, n_from // 3)):
             texts.append(L.cgi_text_of(kspec, L.gen_value(kspec, rng)))
@@ -87,7 +87,8 @@ def run_optcodec(ctx, ch: Channel, only: set | None = None):
         for t in texts:
             lines.append(f"optfrom {kspec} {L.hx(t)}")
             meta.append(("from", i, t))
-        values = [L.gen_value(kspec, rng) for _ in range(n_to)]
+        values = L.fixed_values(kspec) + [L.gen_value(kspec, rng) for _ in range(n_to)]
+        texts += [L.cgi_text_of(kspec, v) for v in L.fixed_values(kspec)]
         if kbase == "drmSelection":
             values += all_drm_selections()      # every subset of systems x every non-empty location subset
         for v in values:
@@ -188,8 +189,14 @@ def run_optforward(ctx, ch: Channel):
     n = ctx.scale(1500, 20000)
     lines, meta = [], []
     glob = OptionsRepository.get_default_options()
-    for _ in range(n):
-        req = gen_request(rng, rows)
+    fixed_reqs = []
+    for i, r in enumerate(rows):
+        if r["cgi"] == "mode":
+            continue
+        for v in L.fixed_values(r["kspec"])[: (10 ** 6 if ctx.thorough else 14)]:
+            fixed_reqs.append({r["cgi"]: (i, v)})
+    for it in range(len(fixed_reqs) + n):
+        req = fixed_reqs[it] if it < len(fixed_reqs) else gen_request(rng, rows)
         params = {cgi: L.cgi_text_of(rows[i]["kspec"], v) for cgi, (i, v) in req.items()}
         defaults = glob
         if rng.random() < .3:        # a stream with its own defaults (values of the right type)
@@ -272,6 +279,17 @@ def _app():
 
 
 # ------------------------------------------------------------------ optfilter
+def server_defaults(stored):
+    """the defaults calculate_options works with for a stream whose stored defaults are `stored`
+    (base.py:96-100) – what both the manifest and the media handler start from"""
+    from dashlive.server.options.repository import OptionsRepository
+    glob = OptionsRepository.get_default_options()
+    if stored is None:
+        return glob
+    parse = getattr(OptionsRepository, "parse_stored_options", None)
+    return glob.clone(**(parse(stored) if parse else stored))
+
+
 class _Stream:
     """what calculate_options reads of a Stream: its defaults"""
     def __init__(self, defaults):
@@ -373,7 +391,7 @@ def run_optfilter(ctx, ch: Channel):
         mft = mfts.manifest_map[key]
         mode = rng.choice(["live", "vod", "odvod"])
         stream = _Stream(sd)
-        defaults = glob.clone(**sd) if sd is not None else glob
+        defaults = server_defaults(sd)
         dspec = container_spec(rows, defaults)
         aspec = ";".join(f"{L.hx(k)}={L.hx(v)}" for k, v in args.items()) or "-"
         case = {"manifest": key, "mode": mode, "args": args, "stream_defaults": repr(sd) if sd else None}
